@@ -34,8 +34,9 @@ def dump_ast(include, workdir, compiler="clang++"):
             for b in KINDS.values():
                 f.write("template void convert_type_fundamental<%s, %s>(%s&, const volatile %s&);\n" % (a, b, a, b))
         f.write("}\n")
+    # the filter keeps every declaration of namespace rlbox::detail: the instantiated functions AND any helper they call
     r = subprocess.run([compiler, "-std=c++17", "-w", "-I" + include, "-fsyntax-only", "-Xclang", "-ast-dump=json",
-                        "-Xclang", "-ast-dump-filter=convert_type_fundamental", tu], stdout=subprocess.PIPE, stderr=subprocess.PIPE, text=True)
+                        "-Xclang", "-ast-dump-filter=rlbox::detail", tu], stdout=subprocess.PIPE, stderr=subprocess.PIPE, text=True)
     if r.returncode != 0:
         raise Unknown("clang failed on the instantiation TU: " + r.stderr[-1500:])
     txt = r.stdout
@@ -48,10 +49,33 @@ def dump_ast(include, workdir, compiler="clang++"):
             break
         d, i = dec.raw_decode(txt, i)
         docs.append(d)
+    flat = []
+
+    def walk(d):
+        if d.get("kind") == "NamespaceDecl":
+            for c in d.get("inner", []):
+                walk(c)
+        else:
+            flat.append(d)
+    for d in docs:
+        walk(d)
+    docs = flat
     fts = [d for d in docs if d.get("kind") == "FunctionTemplateDecl" and d.get("name") == "convert_type_fundamental"]
     if not fts:
         raise Unknown("convert_type_fundamental not found in the AST dump")
+    FUNCS.clear()
+    for d in docs:
+        if d.get("kind") == "FunctionTemplateDecl":
+            for c in d.get("inner", []):
+                if c.get("kind") in ("FunctionDecl", "CXXMethodDecl"):
+                    FUNCS[c.get("id")] = c
+        elif d.get("kind") in ("FunctionDecl", "CXXMethodDecl"):
+            FUNCS[d.get("id")] = d
     return [c for c in fts[0]["inner"] if c["kind"] == "FunctionDecl"]
+
+
+FUNCS = {}   # id -> FunctionDecl (with body when defined) of this clang run: helpers are inlined through it
+NEG = {"<": ">=", "<=": ">", ">": "<=", ">=": "<"}
 
 
 class Tr:
@@ -60,6 +84,7 @@ class Tr:
         self.vars = {}
         self.out = []
         self.assigned = False
+        self.depth = 0
 
     def stmt(self, n):
         k = n.get("kind")
@@ -92,13 +117,14 @@ class Tr:
                     continue
                 if ck == "VarDecl":
                     name = c.get("name")
-                    ty = c.get("type", {}).get("qualType", "")
-                    if name.startswith("cond") or name == "unknownCase" or "char *" in ty:
-                        continue
                     init = [x for x in c.get("inner", [])]
-                    if len(init) != 1:
-                        raise Unknown("variable without a single initialiser: " + name)
-                    self.vars[name] = self.expr(init[0])
+                    try:
+                        if len(init) != 1:
+                            raise Unknown("variable without a single initialiser: " + str(name))
+                        self.vars[name] = self.expr(init[0])
+                    except Unknown as ex:
+                        # compile-time flags, message strings...: an error only if the value is used
+                        self.vars[name] = ("poison", "%s: %s" % (name, ex))
                 else:
                     raise Unknown("declaration " + str(ck))
         elif k in ("NullStmt",):
@@ -108,13 +134,19 @@ class Tr:
         elif k == "CallExpr":
             callee = self.callee_name(n)
             if callee != "dynamic_check":
-                raise Unknown("call to " + str(callee))
+                self.inline(n, callee)
+                return
             args = n["inner"][1:]
             c = self.strip(args[0])
+            neg = False
+            while c.get("kind") == "UnaryOperator" and c.get("opcode") == "!":
+                neg = not neg
+                c = self.strip(c["inner"][0])
             if c.get("kind") != "BinaryOperator" or c.get("opcode") not in ("<=", ">=", "<", ">"):
                 raise Unknown("dynamic_check condition " + str(c.get("kind")) + " " + str(c.get("opcode")))
             a, b = c["inner"]
-            self.out.append(("check", c["opcode"], self.expr(a), self.expr(b)))
+            op = NEG[c["opcode"]] if neg else c["opcode"]      # integers: !(a < b) is a >= b
+            self.out.append(("check", op, self.expr(a), self.expr(b)))
         elif k == "BinaryOperator" and n.get("opcode") == "=":
             lhs, rhs = n["inner"]
             if self.ref_name(lhs) != "to":
@@ -123,6 +155,33 @@ class Tr:
             self.assigned = True
         else:
             raise Unknown("statement kind " + str(k))
+
+    def inline(self, n, callee):
+        """a call to a helper whose body is in the AST: its checks are taken over, parameters bound to the arguments"""
+        c = n["inner"][0]
+        while c.get("kind") == "ImplicitCastExpr":
+            c = c["inner"][0]
+        c = self.strip(c)
+        fid = c.get("referencedDecl", {}).get("id") if c.get("kind") == "DeclRefExpr" else None
+        h = FUNCS.get(fid)
+        body = [y for y in (h or {}).get("inner", []) if y.get("kind") == "CompoundStmt"]
+        if not body or self.depth > 4:
+            raise Unknown("call to " + str(callee))
+        params = [p for p in h.get("inner", []) if p.get("kind") == "ParmVarDecl"]
+        args = n["inner"][1:]
+        if len(params) != len(args):
+            raise Unknown("helper arity: " + str(callee))
+        sub = Tr()
+        sub.depth = self.depth + 1
+        for p, a in zip(params, args):
+            try:
+                sub.vars[p.get("name")] = self.expr(a)
+            except Unknown as ex:
+                sub.vars[p.get("name")] = ("poison", "%s: %s" % (p.get("name"), ex))
+        sub.stmt(body[0])
+        if sub.assigned:
+            raise Unknown("helper assigns the result: " + str(callee))
+        self.out += sub.out
 
     def strip(self, n):
         while n.get("kind") in ("ParenExpr", "ExprWithCleanups"):
@@ -154,10 +213,13 @@ class Tr:
             raise Unknown("cast kind " + str(ck))
         if k == "DeclRefExpr":
             name = n.get("referencedDecl", {}).get("name")
+            if name in self.vars:
+                v = self.vars[name]
+                if v[0] == "poison":
+                    raise Unknown("use of untranslated variable " + v[1])
+                return v
             if name == "from":
                 return ("var",)
-            if name in self.vars:
-                return self.vars[name]
             raise Unknown("reference to " + str(name))
         if k == "IntegerLiteral":
             return ("lit", int(n["value"]))
